@@ -197,6 +197,30 @@ def slot(ctx, report, rule, facts, config):
                         return pos
                 return None
 
+            LEVEL_TABLES = ("ids", "reads", "writes", "running_time", "stages")
+
+            def fresh_index(t, idx_want, grow_pos):
+                """`t` is the index of the element the growing call at event position grow_pos appends to one of the tables
+                that grow in lockstep, at the level given by idx_want ([] = the stage lists, [stage] = the group lists of
+                that stage): the length read before the call, or the length read after it minus one."""
+                from .sem import _is_decr
+                cands = []
+                for pos, x in enumerate(events):
+                    if x[0] == "call" and x[2].name == "len" and not x[2].local and x[3]:
+                        f_, i_, b_ = Q.table_access(ev, x[3][0])
+                        cf_ = Q.crate_fields(f_)
+                        if b_ == ("param", 1) and cf_ and cf_[0] == (A.SB, cf_[0][1]) and cf_[0][1] in LEVEL_TABLES and [Q.strip(ev, i) for i in i_] == idx_want \
+                                and (len(cf_) == 1 or (cf_[0][1] == "stages" and cf_[1:] == [(A.STAGE, "groups")] and idx_want)):
+                            if len(cf_) == 1 and cf_[0][1] == "stages" and idx_want:
+                                continue   # stages[stage] itself has no length of groups without `.groups`
+                            cands.append((pos, x[4]))
+                for pos, lt in cands:
+                    if t == lt and pos < grow_pos:
+                        return True
+                    if _is_decr(t, lt) and pos > grow_pos:
+                        return True
+                return False
+
             if variant == "Group":
                 if s0 != ("field", ("variant", it_call, "Group"), "0", A.TARGET) or g0 != ("field", ("variant", it_call, "Group"), "1", A.TARGET):
                     problems.append("Group(stage, group) target: the slot written is not (target.0, target.1)")
@@ -205,24 +229,18 @@ def slot(ctx, report, rule, facts, config):
             elif variant == "Stage":
                 if s0 != ("field", ("variant", it_call, "Stage"), "0", A.TARGET):
                     problems.append("Stage(stage) target: stage index written is not target.0")
-                okg = False
-                if Q.is_call(ev, g0, "len"):
-                    f_, i_, b_ = Q.table_access(ev, g0[2][0])
-                    if Q.crate_fields(f_) == [(A.SB, "ids")] and [Q.strip(ev, i) for i in i_] == [s0] and n_add_group and pos_of(g0) is not None and pos_of(g0) < n_add_group[0][0]:
-                        okg = True
+                okg = bool(n_add_group) and fresh_index(g0, [s0], n_add_group[0][0])
                 if not okg:
-                    problems.append("Stage target: group index is not len(ids[stage]) taken before add_group")
+                    problems.append("Stage target: group index is not the position of the group that add_group appends (len(ids[stage]) before it, or len - 1 after it)")
                 if n_add_stage or len(n_add_group) != 1 or tuple(Q.strip(ev, i) for i in n_add_group[0][1][1:]) != (s0,):
                     problems.append("Stage target: expected exactly one add_group(stage) and no add_stage")
             elif variant == "NewStage":
-                oks = False
-                if Q.is_call(ev, s0, "len"):
-                    f_, i_, b_ = Q.table_access(ev, s0[2][0])
-                    if Q.crate_fields(f_) == [(A.SB, "stages")] and not i_ and n_add_stage and pos_of(s0) is not None and pos_of(s0) < n_add_stage[0]:
-                        oks = True
+                oks = bool(n_add_stage) and fresh_index(s0, [], n_add_stage[0])
                 if not oks:
-                    problems.append("NewStage: stage index is not len(stages) taken before add_stage")
+                    problems.append("NewStage: stage index is not the position of the stage that add_stage appends (len(stages) before it, or len - 1 after it)")
                 g_ok = g0 == ("int", 0)
+                if not g_ok and n_add_stage and n_add_group and _add_stage_pushes_empty(ctx, facts):
+                    g_ok = fresh_index(g0, [s0], n_add_group[0][0])
                 if not g_ok and Q.is_call(ev, g0, "len") and n_add_stage and n_add_group:
                     # `ids[stage].len()` measured after add_stage pushed the new (empty) group list and before add_group
                     f_, i_, b_ = Q.table_access(ev, g0[2][0])
@@ -528,6 +546,40 @@ def pool_inventory(ctx, report, rule, facts, config, crossing_only=False):
 
 # ------------------------------------------------------------------ BUILD wiring
 
+def registers_thread_local(ctx, facts, b):
+    """On every way through `b` the builder's thread-local list receives exactly one `push(Box::new(<a parameter>))` and no
+    other shape-changing operation: (ok, what was seen)."""
+    from . import semq as Q
+    ev, ends = Q.sem(ctx, facts, b)
+    rets = Q.returns(ends)
+    ok = bool(rets)
+    seen = []
+    for e in rets:
+        pushes = []
+        for x in e.path.events:
+            if x[0] == "loop":
+                if Q.loop_contains_call(x[1], lambda c: c.name in SHAPE_MUTATORS and not c.local):
+                    pushes.append(("loop", None))
+            elif x[0] == "call" and x[2].name in SHAPE_MUTATORS and not x[2].local and x[3]:
+                f_, i_, base = Q.table_access(ev, x[3][0])
+                if Q.crate_fields(f_) == [(A.DB, "thread_local")]:
+                    pushes.append((x[2].name, x[3]))
+            elif x[0] == "store" and x[2][0] != "cell":
+                f_, i_, base = Q.table_access(ev, x[2])
+                if Q.crate_fields(f_)[-1:] == [(A.DB, "thread_local")]:
+                    pushes.append(("store", None))
+        seen.append([p_[0] for p_ in pushes])
+        if not (len(pushes) == 1 and pushes[0][0] == "push"):
+            ok = False
+            continue
+        v = pushes[0][1][1]
+        while v[0] == "cast":
+            v = v[2]
+        if not (Q.is_call(ev, v, "new") and "Box" in (Q.callee_of(ev, v).path or "") and len(v[2]) == 1 and v[2][0][0] == "param"):
+            ok = False
+    return ok, seen
+
+
 def build_wiring(ctx, report, rule, facts, config):
     """The built dispatcher holds exactly the builder's stage list and
     thread-local list."""
@@ -622,29 +674,7 @@ def build_wiring(ctx, report, rule, facts, config):
     # add_thread_local: exactly one push of Box::new(system) onto self.thread_local
     b = facts.one(A.DB + "::add_thread_local")
     report.touched(b, config)
-    ev, ends = Q.sem(ctx, facts, b)
-    rets = Q.returns(ends)
-    ok = bool(rets)
-    seen = []
-    for e in rets:
-        pushes = []
-        for x in e.path.events:
-            if x[0] == "loop":
-                if Q.loop_contains_call(x[1], lambda c: c.name in SHAPE_MUTATORS and not c.local):
-                    pushes.append(("loop", None))
-            elif x[0] == "call" and x[2].name in SHAPE_MUTATORS and not x[2].local and x[3]:
-                f_, i_, base = Q.table_access(ev, x[3][0])
-                if Q.crate_fields(f_) == [(A.DB, "thread_local")]:
-                    pushes.append((x[2].name, x[3]))
-        seen.append([p_[0] for p_ in pushes])
-        if not (len(pushes) == 1 and pushes[0][0] == "push"):
-            ok = False
-            continue
-        v = pushes[0][1][1]
-        while v[0] == "cast":
-            v = v[2]
-        if not (Q.is_call(ev, v, "new") and "Box" in (Q.callee_of(ev, v).path or "") and v[2] == (("param", 2),)):
-            ok = False
+    ok, seen = registers_thread_local(ctx, facts, b)
     report.ob(rule, "add_thread_local", ok, "one `push(Box::new(system))` onto self.thread_local on every path" if ok else
               "thread-local registration is not a single append of the boxed system: %s" % seen, site=b.loc(), config=config)
     # nobody else changes the thread-local lists
@@ -660,7 +690,9 @@ def build_wiring(ctx, report, rule, facts, config):
                 cf = crate_fields(f_)
                 if cf and cf[-1][1] == "thread_local" and cf[-1][0] in (A.DB, A.DISP, A.AD):
                     n += 1
-                    if bd.key != b.key:
+                    rb_ = facts.bodies.get(bd.root_key, bd) if bd.is_closure and bd.root_key else bd
+                    # another registration method of the builder (one boxed push on every way) is as good as add_thread_local
+                    if bd.key != b.key and not (cf[-1][0] == A.DB and rb_.self_head == A.DB and registers_thread_local(ctx, facts, rb_)[0]):
                         report.ob(rule, "thread_local-mutated/%s" % bd.qname, False,
                                   "`thread_local` list changed by `%s` in %s" % (c.name, bd.qname), site=bd.loc(bb), config=config)
     report.floor(rule, "thread_local appends", n, 1, config=config)
